@@ -67,7 +67,14 @@ func registeredRefsRolledBack(r *core.Run) {
 			ast.Inspect(rs.Body, func(x ast.Node) bool {
 				if c, ok := x.(*ast.CallExpr); ok {
 					if id, ok := c.Fun.(*ast.Ident); ok && id.Name == "delete" && len(c.Args) == 2 {
-						if s, ok := core.Unparen(c.Args[0]).(*ast.SelectorExpr); ok && s.Sel.Name == "Schemas" {
+						target := core.Unparen(c.Args[0])
+						if lid, isID := target.(*ast.Ident); isID {
+							// schemas := ref.Package.Schemas; delete(schemas, …)
+							if def := soleDefinition(info, lid); def != nil {
+								target = core.Unparen(def)
+							}
+						}
+						if s, ok := target.(*ast.SelectorExpr); ok && s.Sel.Name == "Schemas" {
 							deletes = true
 						}
 					}
@@ -277,4 +284,69 @@ func rollbackName(f *types.Func) string {
 		return "(none)"
 	}
 	return f.Name()
+}
+
+// uniquePropertyNames (R-ERR/E4u): the codec and clients address the properties
+// of an object by name, flattened children included; an exposed oneof or a
+// flattened message can bring a name the message already has. The builder of
+// object schemas therefore rejects a message whose client-visible property
+// names repeat.
+func uniquePropertyNames(r *core.Run) {
+	r.Rule("R-ERR/E4u", "Package.buildObjectSchema (with its helpers) ranges over the client-visible properties of the schema it built (ClientProperties(): flattened children expanded), tests each JSONName for membership in a map it fills in the same loop, and returns an error on a repeat")
+	fd, pk := r.P.FuncDecl(schemaRel, "Package.buildObjectSchema")
+	if fd == nil {
+		r.Fatal("anchor: j5schema.Package.buildObjectSchema not found")
+		return
+	}
+	info := pk.TypesInfo
+	o := r.Add("R-ERR/E4u", schemaRel+".Package.buildObjectSchema | property names are unique", fd.Pos(), "uniqueness of client-visible property names")
+	found := false
+	core.InspectTree(pk, fd.Body, func(n ast.Node) bool {
+		rs, ok := n.(*ast.RangeStmt)
+		if !ok || found {
+			return true
+		}
+		c, ok := core.Unparen(rs.X).(*ast.CallExpr)
+		if !ok {
+			return true
+		}
+		s, ok := c.Fun.(*ast.SelectorExpr)
+		if !ok || s.Sel.Name != "ClientProperties" {
+			return true
+		}
+		tests, stores, errs := false, false, false
+		ast.Inspect(rs.Body, func(x ast.Node) bool {
+			switch y := x.(type) {
+			case *ast.IfStmt:
+				if as, ok := y.Init.(*ast.AssignStmt); ok && len(as.Rhs) == 1 {
+					if ix, ok := core.Unparen(as.Rhs[0]).(*ast.IndexExpr); ok {
+						if _, isMap := info.TypeOf(ix.X).Underlying().(*types.Map); isMap && strings.HasSuffix(core.ExprStr(ix.Index), ".JSONName") {
+							tests = true
+							for _, st := range y.Body.List {
+								if ret, ok := st.(*ast.ReturnStmt); ok && len(ret.Results) > 0 && !core.IsNilIdent(info, ret.Results[len(ret.Results)-1]) {
+									errs = true
+								}
+							}
+						}
+					}
+				}
+			case *ast.AssignStmt:
+				for _, l := range y.Lhs {
+					if ix, ok := core.Unparen(l).(*ast.IndexExpr); ok && strings.HasSuffix(core.ExprStr(ix.Index), ".JSONName") {
+						stores = true
+					}
+				}
+			}
+			return true
+		})
+		if tests && stores && errs {
+			found = true
+		}
+		return true
+	})
+	if found {
+		o.Auto("a repeated JSONName among ClientProperties() is an error")
+	} else {
+		o.Fail("nothing rejects a message whose client-visible property names repeat (a field next to an exposed oneof of the same camel-cased name; a flattened child with a field named like one of the parent's): the schema is handed out, and the codec then writes duplicate keys and reads a key into the wrong field")
+	}
 }
